@@ -923,6 +923,17 @@ func (se *specEnv) call(e *SExpr) SVal {
 			return SVal{tv, sig.Results()}
 		}
 		return SVal{v, sig.Results().At(0).Type()}
+	case "ncalls":
+		// ncalls("pkg.F"): how many calls to the `traced` function F have completed (ghost counter)
+		key := e.Args[0].Str
+		target := f.ctx.eng.fnByKey[key]
+		if target == nil {
+			sfail("ncalls: unknown function %q", key)
+		}
+		if ct := f.ctx.eng.contractFor(target); ct == nil || !ct.Traced {
+			sfail("ncalls: %s is not declared `traced`", key)
+		}
+		return SVal{f.ctx.comp(se.cur, "$ncalls!"+key, SInt), ti}
 	case "called":
 		// called("pkg.F", args...): a call to the `traced` function F with these arguments was made on the way here
 		key := e.Args[0].Str
